@@ -14,6 +14,17 @@ E  every tree of a structure family (config / menuconfig / choice / menu / if / 
    character of {VT, FF, FS, GS, RS, NEL, U+2028, U+2029 (where str.splitlines() cuts, an LF-oriented reader and the parsers do
    not); US, NBSP, U+3000 (white space for str.split() and the regex class of white space); U+200B, e-acute, DEL; a tabulator (quoted strings only:
    there it is data)}: every (text, character) alone, and every text of the file at once.
+   STRING LITERALS NEXT TO TRAILING COMMENTS: programs in which EVERY expression line the name checker looks at (depends on of
+   option / menu / comment / choice member, visible if, default .. if with 1 and 2 comparisons, select .. if, imply .. if,
+   range .. if, prompt .. if of option and choice; plus `if`, a string default and a prompt) compares with string literals AND
+   ends in a `#` comment (1 or 2 blanks before the `#`); the two literals of a program run over an alphabet of 17 (lengths
+   0 .. 27; lower, mixed and upper case; blanks inside; decimal / hexadecimal / y / n; '#' inside; keywords; non-ASCII).
+   KEYWORDS INSIDE TEXTS: programs in which prompts (config / menuconfig / choice / menu / comment / mainmenu, with and
+   without `if`), string defaults, string literals of conditions, a trailing comment and help lines contain a Kconfig
+   keyword as a word -- first, in the middle and LAST word of the quoted string, with further quoted strings following on
+   the same line (a help line with two and three quoted phrases, a help line that begins with, ends in and consists of the
+   keyword) -- for each of 27 keywords and 3 words that end in one (resource, submenu, reconfig).
+   Every program of these two families is checked as it is (clause 1; both parsers read it alike); a few are mangled too.
    Every file (the one-text files of the odd-character family excepted) is then mangled at every single site and at every
    pair of sites (alphabet below) and by four global manglings.
    CONTROLS (one over a limit: names of 51 characters, common prefix of 2 characters, NEW rename names of 51 / 57 / 58
@@ -81,6 +92,14 @@ RULE = (
     "alone, all at once}, all singles and pairs of manglings. Not generated: CR (a line end for every reader), escaped quotes and "
     "backslashes (parser 2 reads them differently / does not terminate on some: C04), odd characters in the leading / trailing white "
     "space of a line (then the indentation is not made of blanks). "
+    "TEXT families (both positions): LIT = 17 literals x gap {1, 2 blanks before `#`}: the program's two literals are literal i and "
+    "literal i+1 of (a, ab, uart, Uart, UART, 'usb serial jtag', 'x y', 1, 0x1f, y, n, a#b, if, 'config me', e-acute, 'a longer name in "
+    "lower case', empty), on 17 expression lines with trailing comment; KW = 30 words (source rsource osource orsource config menuconfig menu "
+    "endmenu choice endchoice if endif help default 'depends on' 'visible if' comment mainmenu prompt select imply range bool string option y n "
+    "resource submenu reconfig) in 20 quoted strings and 5 help lines per program. All of them: clause 1 + parsers agree. Mangled (STAB not on "
+    "help lines; keyword-led help lines replaced, see ASSUMPTIONS): quick LIT uart/2 blanks/main, 'usb serial jtag'/1 blank/sub, KW source/main, "
+    "if/sub at D=0; thorough every literal and keyword at D=0 (gap, position alternating) and the four quick ones at D=1. Not generated: the bare "
+    "word `if` between two words of a quoted DEFAULT value (parser 2 rejects it, known C04 class). "
     "distinct outcome = (program, target, reading of the mangled file same as canonical?, passes needed, fixed-point bytes, "
     "failure classes)."
 )
@@ -109,6 +128,13 @@ ASSUMPTIONS = [
     "parser 2 reads white-space-like characters inside quoted strings differently from parser 1 already in the compliant file "
     "(str.split() tokeniser, recorded under C04): for the odd-character family this is counted (canonical_parsers_disagree(C04)), not "
     "alarmed, and the fixed point is compared per parser (parser 2 with parser 2's own reading of the mangled input / compliant file)",
+    "a `#` outside quotes starts a comment on every kind of line (both parsers accept `depends on A = \"x\"  # c`), so a compliant file may "
+    "carry one after any expression; what stands between two quotes (keywords, `#`, lower-case words, nothing at all) is data and no rule "
+    "of the format speaks about it; a help line may contain any words and quoted phrases. Only `source \"..\"` at the BEGINNING of a help "
+    "line is not generated (the line-based source rule cannot know it is help text)",
+    "the mangled programs of the keyword family have no help line that BEGINS with the keyword: under-indenting such a line makes the "
+    "checker take it for an entry (known finding C18-underindented-help-keyword-line; with `if` / `source` / `menu` in place of `config` the "
+    "same root cause shows as a fixed point that a parser rejects). The unmangled programs keep those lines",
     "option names are referenced before/without definition (APP_*_D / APP_K* condition symbols) so that every node's "
     "conditions identify the blocks it sits in; parser 2 needs `mainmenu`, so mainmenu-less bodies are sourced files",
 ]
@@ -431,6 +457,8 @@ def render_program(forest: tuple, rot: int, pos: str, namelen: int = 0, nmode: s
 
 
 def render_spec(spec: Dict[str, Any]) -> Dict[str, List[Tuple[str, str]]]:
+    if spec.get("text"):
+        return render_text(spec)
     files = render_program(spec["forest"], spec["rot"], spec["pos"], spec.get("namelen", 0), spec.get("nmode", ""))
     odd = spec.get("odd")
     if odd:
@@ -541,6 +569,200 @@ def odd_single_specs() -> List[Dict[str, Any]]:
     return out
 
 
+# ----------------------------------------------------------------------------------------------------------
+# TEXT families: compliant programs whose TEXTS are the varied dimension
+#   "lit": every expression line the name checker looks at (depends on / visible if / default .. if / select .. if /
+#          imply .. if / range .. if / prompt .. if; plus `if`) compares with string literals AND ends in a `#` comment
+#   "kw":  prompts, string defaults, string literals and help lines contain a Kconfig keyword as a word, at the start,
+#          in the middle and at the END of the quoted string, followed by further quoted strings on the same line
+# ----------------------------------------------------------------------------------------------------------
+
+# string literals: lengths 1 .. 24, lower / mixed / upper case, blanks inside, numbers, y / n, '#' inside, keywords
+TEXT_LITS = ("a", "ab", "uart", "Uart", "UART", "usb serial jtag", "x y", "1", "0x1f", "y", "n", "a#b", "if", "config me",
+             "e\xe9", "a longer name in lower case", "")  # fmt: skip
+TEXT_GAPS = (" ", "  ")  # between the code and the `#` of the trailing comment
+TEXT_KWS = ("source", "rsource", "osource", "orsource", "config", "menuconfig", "menu", "endmenu", "choice", "endchoice", "if", "endif",
+            "help", "default", "depends on", "visible if", "comment", "mainmenu", "prompt", "select", "imply", "range", "bool", "string",
+            "option", "y", "n",
+            # words that END in a keyword
+            "resource", "submenu", "reconfig")  # fmt: skip
+
+
+def render_text(spec: Dict[str, Any]) -> Dict[str, List[Tuple[str, str]]]:
+    t = spec["text"]
+    r = Rend(0)
+    b = 4 if spec["pos"] == "main" else 0
+    if t["fam"] == "lit":
+        _text_lit(r, b, TEXT_LITS[t["i"]], TEXT_LITS[(t["i"] + 1) % len(TEXT_LITS)], TEXT_GAPS[t["gap"]])
+        top = 'mainmenu "Top"'
+    else:
+        kw = TEXT_KWS[t["i"]]
+        _text_kw(r, b, kw, t.get("lead", 1))
+        top = f'mainmenu "Top of the {kw}"'
+    if spec["pos"] == "main":
+        return {"Kconfig": [(top, "mainmenu"), ("", "blank")] + _finish(r.lines)}
+    return {
+        "Kconfig": [('mainmenu "Top"', "mainmenu"), ("", "blank"), ('    source "Kconfig.body"', "source")],
+        "Kconfig.body": _finish(r.lines),
+    }
+
+
+def _text_lit(r: Rend, b: int, a: str, c: str, g: str) -> None:
+    """a, c: two string literals; g: the gap before the `#` of a trailing comment"""
+    P = "prop.lit.hash"  # a property line with string literal(s) and a trailing comment
+
+    def pw(t: str, x: str) -> str:
+        """prompt text + literal (an empty literal adds nothing: no doubled / trailing blank inside a prompt, see C04)"""
+        return f"{t} {x}" if x else t
+
+    r.add(b, "config APP_LBACK", "config")
+    r.add(b + 4, 'string "Backend name"', "prop")
+    r.add(b + 4, f'default "{a}"', "prop")
+    r.blank()
+    r.add(b, "config APP_LMODE", "config")
+    r.add(b + 4, 'string "Mode name"', "prop")
+    r.add(b + 4, f'default "{c}"{g}# the usual one', P)
+    r.blank()
+    r.add(b, "config APP_LCOLOR", "config")
+    r.add(b + 4, 'bool "Colored output"', "prop")
+    r.add(b + 4, f'depends on APP_LBACK = "{a}"{g}# only the serial console understands escape codes', P)
+    r.add(b + 4, f'default y if APP_LBACK = "{a}" || APP_LMODE = "{c}"{g}# cheap on these backends', P)
+    r.add(b + 4, "default n", "prop")
+    r.add(b + 4, f'select APP_LHELPER if APP_LBACK = "{a}"{g}# needs the helper', P)
+    r.add(b + 4, f'imply APP_LEXTRA if APP_LMODE != "{c}"{g}# nice to have', P)
+    r.add(b + 4, "help", "help")
+    r.add(b + 8, "Help of the coloured output.", "help.first")
+    r.blank()
+    r.add(b, "config APP_LHELPER", "config")
+    r.add(b + 4, "bool", "prop")
+    r.blank()
+    r.add(b, "config APP_LEXTRA", "config")
+    r.add(b + 4, 'bool "Extra"', "prop")
+    r.blank()
+    r.add(b, "config APP_LCOUNT", "config")
+    r.add(b + 4, 'int "Count"', "prop")
+    r.add(b + 4, f'range 1 9 if APP_LBACK = "{a}"{g}# small on this backend', P)
+    r.add(b + 4, "range 1 99", "prop")
+    r.add(b + 4, f'default 5 if APP_LBACK = "{a}" && APP_LMODE = "{c}"{g}# both', P)
+    r.add(b + 4, "default 3", "prop")
+    r.blank()
+    r.add(b, "config APP_LNAME", "config")
+    r.add(b + 4, "string", "prop")
+    r.add(b + 4, f'prompt "{pw("Name of the", c)}" if APP_LBACK = "{a}"{g}# prompt with a condition', P)
+    r.add(b + 4, f'default "{c}" if APP_LBACK = "{a}"{g}# value and literal', P)
+    r.add(b + 4, f'default "{a}"', "prop")
+    r.blank()
+    r.add(b, f'menu "{pw("Menu", a)}"', "menu")
+    r.add(b + 4, f'depends on APP_LBACK = "{a}"{g}# menu dependency', P)
+    r.add(b + 4, f'visible if APP_LMODE = "{c}"{g}# menu visibility', P)
+    r.blank()
+    r.add(b + 4, "config APP_LINNER", "config")
+    r.add(b + 8, f'bool "{pw("Inner", c)}"{g}# prompt and comment', "prop.hash")
+    r.blank()
+    r.add(b + 4, "choice APP_LPICK", "choice")
+    r.add(b + 8, f'prompt "{pw("Pick", c)}" if APP_LBACK = "{a}"{g}# conditional prompt of a choice', P)
+    r.add(b + 8, f'default APP_LPICK_A if APP_LMODE = "{c}"{g}# default member', P)
+    r.add(b + 8, "default APP_LPICK_B", "prop")
+    r.blank()
+    r.add(b + 8, "config APP_LPICK_A", "config")
+    r.add(b + 12, 'bool "A"', "prop")
+    r.blank()
+    r.add(b + 8, "config APP_LPICK_B", "config")
+    r.add(b + 12, 'bool "B"', "prop")
+    r.add(b + 12, f'depends on APP_LBACK != "{a}"{g}# member dependency', P)
+    r.blank()
+    r.add(b + 4, "endchoice", "endchoice")
+    r.blank()
+    r.add(b, "endmenu", "endmenu")
+    r.blank()
+    r.add(b, f'comment "{pw("remark", a)}"', "comment")
+    r.add(b + 4, f'depends on APP_LBACK = "{a}" && APP_LMODE != "{c}"{g}# dependency of a comment', P)
+    r.blank()
+    r.add(b, f'if APP_LBACK = "{a}"{g}# block condition', "if.lit.hash")
+    r.blank()
+    r.add(b + 4, "config APP_LCOND", "config")
+    r.add(b + 8, 'bool "cond"', "prop")
+    r.blank()
+    r.add(b, "endif", "endif")
+    r.blank()
+
+
+def _text_kw(r: Rend, b: int, kw: str, lead: int = 1) -> None:
+    """lead=0: no help line BEGINS with the keyword (the programs that are mangled: an under-indented help line that begins
+    with a keyword is taken for an entry, known finding C18-underindented-help-keyword-line)"""
+    S = "prop.kwstr"  # a property line with quoted strings that contain the keyword
+    H = "help.kwtext"
+    r.add(b, "config APP_KMODE", "config")
+    r.add(b + 4, 'string "Clock mode"', "prop")
+    r.add(b + 4, 'default "auto"', "prop")
+    r.blank()
+    r.add(b, f'comment "clock {kw} selection"', "comment.kwstr")
+    r.blank()
+    r.add(b, f'comment "{kw} selection"', "comment.kwstr")
+    r.add(b + 4, f'depends on APP_KMODE != "{kw}"', S)
+    r.blank()
+    r.add(b, f'comment "the {kw}"', "comment.kwstr")
+    r.add(b + 4, f'depends on APP_KMODE = "clock {kw}" || APP_KMODE = "manual"', S)
+    r.blank()
+    r.add(b, "config APP_KEXT", "config")
+    r.add(b + 4, f'bool "Use an external clock {kw}"', S)
+    r.add(b + 4, "default n", "prop")
+    r.blank()
+    r.add(b, "config APP_KNAME", "config")
+    r.add(b + 4, f'string "Name of the clock {kw}" if APP_KMODE = "manual"', S)
+    r.add(b + 4, f'default "xtal {kw}" if APP_KMODE = "{kw}"', S)
+    r.add(b + 4, f'default "{kw}"', S)
+    r.add(b + 4, "help", "help")
+    r.add(b + 8, f'Name of the oscillator that is used as "clock {kw}" when the mode is "manual".', "help.first")
+    r.add(b + 8, (f"{kw} as the first word" if lead else f"The word {kw} in the middle") + f' of a help line, and "{kw}" "quoted" twice.', H)
+    r.add(b + 8, f"This line ends in the word {kw}", H)
+    r.blank()
+    r.add(b, "config APP_KSTART", "config")
+    r.add(b + 4, "string", "prop")
+    r.add(b + 4, f'prompt "{kw} leads the prompt" if APP_KMODE != "{kw} x"', S)
+    # not generated: the bare word `if` BETWEEN two words of a quoted default value (parser 2 rejects it: recorded under C04)
+    first = kw if kw.endswith(" if") else f"{kw} first"
+    r.add(b + 4, f'default "{first}" if APP_KMODE = "a" || APP_KMODE = "b {kw}"', S)
+    r.add(b + 4, f'default "second {kw}"  # the {kw} "again" and "again"', S + ".hash")
+    r.blank()
+    r.add(b, f'menu "Menu about the {kw}"', "menu.kwstr")
+    r.add(b + 4, f'visible if APP_KMODE = "clock {kw}" || APP_KMODE = "other"', S)
+    r.blank()
+    r.add(b + 4, "choice APP_KPICK", "choice")
+    r.add(b + 8, f'prompt "Pick the {kw}" if APP_KMODE = "manual"', S)
+    r.add(b + 8, "default APP_KPICK_A", "prop")
+    r.add(b + 8, "help", "help")
+    r.add(b + 12, f'The "{kw}" is chosen here, "manual" or "auto".', "help.first")
+    r.blank()
+    r.add(b + 8, "config APP_KPICK_A", "config")
+    r.add(b + 12, f'bool "A {kw}"', S)
+    r.blank()
+    r.add(b + 8, "config APP_KPICK_B", "config")
+    r.add(b + 12, f'bool "{kw} B"', S)
+    r.blank()
+    r.add(b + 4, "endchoice", "endchoice")
+    r.blank()
+    r.add(b, "endmenu", "endmenu")
+    r.blank()
+    r.add(b, "menuconfig APP_KGROUP", "menuconfig")
+    r.add(b + 4, f'bool "Group of the {kw}"', S)
+    r.add(b + 4, "help", "help")
+    r.add(b + 8, f"{kw}" if lead else f"Only {kw}", "help.first")
+    r.blank()
+
+
+def text_specs(tier: str) -> List[Dict[str, Any]]:
+    """every program of the TEXT families (checked as it is: clause 1, and that both parsers read it alike)"""
+    out = []
+    for pos in ("main", "sub"):
+        for i in range(len(TEXT_LITS)):
+            for gap in range(len(TEXT_GAPS)):
+                out.append({"forest": (("textlit",),), "rot": 0, "pos": pos, "D": 0, "tag": "text", "text": {"fam": "lit", "i": i, "gap": gap}})
+        for i in range(len(TEXT_KWS)):
+            out.append({"forest": (("textkw",),), "rot": 0, "pos": pos, "D": 0, "tag": "text", "text": {"fam": "kw", "i": i}})
+    return out
+
+
 def text_of(lines: List[Tuple[str, str]]) -> str:
     return "".join(l + "\n" for l, _ in lines)
 
@@ -568,8 +790,10 @@ def programs(tier: str) -> List[Dict[str, Any]]:
     out: List[Dict[str, Any]] = []
     seen = set()
 
-    def emit(forest, rot, pos, dist, tag, namelen=0, nmode="", odd=None):
+    def emit(forest, rot, pos, dist, tag, namelen=0, nmode="", odd=None, text=None):
         spec = {"forest": forest, "rot": rot, "pos": pos, "D": dist, "tag": tag}
+        if text:
+            spec["text"] = text
         if namelen:
             spec["namelen"] = namelen
         if nmode:
@@ -629,6 +853,18 @@ def programs(tier: str) -> List[Dict[str, Any]]:
         for pos in ("main", "sub"):
             for ch in ODD_CHARS if thorough else ODD_MANGLED_QUICK:
                 emit(f, 0, pos, 1 if thorough else 0, "odd", odd={"ch": ch, "site": -1})
+    # TEXT families, mangled: quick 2 + 2 programs (single sites and same-line pairs); thorough every literal / keyword
+    # (gap and position alternating) at D=0 and the quick ones at D=1
+    for fam, n, picks in (("lit", len(TEXT_LITS), (TEXT_LITS.index("uart"), TEXT_LITS.index("usb serial jtag"))),
+                          ("kw", len(TEXT_KWS), (TEXT_KWS.index("source"), TEXT_KWS.index("if")))):  # fmt: skip
+        for i in range(n) if thorough else picks:
+            k = picks.index(i) if i in picks else i
+            text = {"fam": fam, "i": i}
+            if fam == "lit":
+                text["gap"] = (k + 1) % 2
+            else:
+                text["lead"] = 0
+            emit((("text" + fam,),), 0, ("main", "sub")[k % 2], 1 if thorough and i in picks else 0, "textm", text=text)
     if thorough:
         for f in forests(3, 3):
             emit(f, hrot(f), hpos(f), 1, "n3")
@@ -739,7 +975,7 @@ def apply_ops(lines: List[str], ops: List[Tuple[int, str]]) -> Optional[str]:
     return "".join(l + "\n" for l in out)
 
 
-def site_table(lines: List[str], alphabet: Tuple[str, ...]) -> Tuple[List[Tuple[int, str]], List[float]]:
+def site_table(lines: List[str], alphabet: Tuple[str, ...], labels: Optional[List[str]] = None) -> Tuple[List[Tuple[int, str]], List[float]]:
     """all applicable (line, op) sites in deterministic order (ops giving the same bytes for a line are merged), and the
     position of every line counted in non-blank lines (a blank line sits half a step after its predecessor)"""
     sites: List[Tuple[int, str]] = []
@@ -750,6 +986,8 @@ def site_table(lines: List[str], alphabet: Tuple[str, ...]) -> Tuple[List[Tuple[
         coord.append(c)
         got = set()
         for op in alphabet:
+            if op == "STAB" and labels is not None and labels[li].startswith("help"):
+                continue  # a quoted phrase in a help line is no quoted string: a tab there is a tab in a help text
             t = apply_op(line, op)
             if t is not None and t not in got:
                 got.add(t)
@@ -769,10 +1007,10 @@ def partners(sites, coord, i: int, dist: float) -> Iterator[int]:
         yield j
 
 
-def manglings(lines: List[str], dist: float, alphabet: Tuple[str, ...], lo: int = 0, hi: Optional[int] = None):
+def manglings(lines: List[str], dist: float, alphabet: Tuple[str, ...], lo: int = 0, hi: Optional[int] = None, labels: Optional[List[str]] = None):
     """For every first site in sites[lo:hi]: its single-site mangling, then ALL its two-site manglings within the line
     distance; the global manglings belong to the chunk with lo == 0.  Yields (ops, text)."""
-    sites, coord = site_table(lines, alphabet)
+    sites, coord = site_table(lines, alphabet, labels)
     hi = len(sites) if hi is None else min(hi, len(sites))
     for i in range(lo, hi):
         a = sites[i]
@@ -791,9 +1029,9 @@ def manglings(lines: List[str], dist: float, alphabet: Tuple[str, ...], lo: int 
                 yield ((-1, g),), t
 
 
-def chunks(lines: List[str], dist: float, alphabet: Tuple[str, ...], size: int) -> List[Tuple[int, int, int]]:
+def chunks(lines: List[str], dist: float, alphabet: Tuple[str, ...], size: int, labels: Optional[List[str]] = None) -> List[Tuple[int, int, int]]:
     """[(lo, hi, number of manglings)] partition of the first-site range into work items of about `size` manglings"""
-    sites, coord = site_table(lines, alphabet)
+    sites, coord = site_table(lines, alphabet, labels)
     out = []
     lo = 0
     n = 0
@@ -915,6 +1153,7 @@ def msg_class(msg: str, path: str) -> str:
     m = m.split("\n")[0]
     m = _RE_QUOTED.sub("'..'", m)
     m = re.sub(r"\bAPP_\w+|\bCONFIG_\w+", "NAME", m)
+    m = re.sub(r"^config name \S+ should", "config name NAME should", m)
     m = _RE_NUM.sub("N", m)
     return m[:90]
 
@@ -1169,6 +1408,13 @@ def check_canonical(ctx: Ctx, r: common.Result, labels: List[str], spec: Any) ->
 
 def odd_sig(spec: Any) -> Dict[str, str]:
     """signature part of the files that carry an odd character in their texts"""
+    text = spec.get("text") if isinstance(spec, dict) else None
+    if text:
+        if text["fam"] == "lit":
+            n = len(TEXT_LITS)
+            empty = "" in (TEXT_LITS[text["i"] % n], TEXT_LITS[(text["i"] + 1) % n])
+            return {"text": "string_literals_and_trailing_comment" + ("+empty_literal" if empty else "")}
+        return {"text": "keyword_in_texts:" + TEXT_KWS[text["i"]].replace(" ", "_")}
     odd = spec.get("odd") if isinstance(spec, dict) else None
     if not odd:
         return {}
@@ -1456,12 +1702,16 @@ def items(tier: str, seed: int):
         for target, ls in files.items():
             if target == "Kconfig" and spec["pos"] == "sub" and spec["tag"] != "n1":
                 continue  # the 3-line root of sourced bodies is identical everywhere; mangled once per n=1 program
-            for lo, hi, n in chunks([l for l, _ in ls], spec["D"], KALPHA, CHUNK):
+            for lo, hi, n in chunks([l for l, _ in ls], spec["D"], KALPHA, CHUNK, [lb for _, lb in ls]):
                 out.append({"family": "kconfig", "spec": spec, "target": target, "lo": lo, "hi": hi, "n": n})
     singles = odd_single_specs()
     per = 64
     for i in range(0, len(singles), per):
         out.append({"family": "oddcanon", "specs": singles[i : i + per]})
+    texts = text_specs(tier)
+    per = 8
+    for i in range(0, len(texts), per):
+        out.append({"family": "textcanon", "specs": texts[i : i + per]})
     rens = rename_programs(tier)
     per = 8
     for i in range(0, len(rens), per):
@@ -1494,7 +1744,7 @@ def run_kconfig_item(item, r: common.Result) -> None:
         single_cache: Dict[Tuple[int, str], set] = {}
         n = 0
         seen = set()
-        for ops, mtext in manglings(lines, spec["D"], KALPHA, item["lo"], item["hi"]):
+        for ops, mtext in manglings(lines, spec["D"], KALPHA, item["lo"], item["hi"], labels):
             if mtext in seen:
                 r.count("duplicate_mangled_bytes")
                 continue
@@ -1613,10 +1863,29 @@ def run_oddcanon_item(item, r: common.Result) -> None:
             ctx.close()
 
 
+def run_textcanon_item(item, r: common.Result) -> None:
+    for spec in item["specs"]:
+        prog = render_spec(spec)
+        files = {fn: text_of(ls) for fn, ls in prog.items()}
+        target = odd_target(spec)
+        ctx = Ctx(files, target)
+        try:
+            r.programs += 1
+            ok = check_canonical(ctx, r, [lb for _, lb in prog[target]], spec)
+            r.outcome(("text", spec["pos"], tuple(sorted(spec["text"].items())), files[target], ok))
+            r.count("text_files_" + spec["text"]["fam"])
+            if r.sample is None:
+                r.sample = {"target": target, "spec": repr(spec), "text": files[target]}
+        finally:
+            ctx.close()
+
+
 def run_item(item) -> common.Result:
     r = common.Result()
     if item["family"] == "kconfig":
         run_kconfig_item(item, r)
+    elif item["family"] == "textcanon":
+        run_textcanon_item(item, r)
     elif item["family"] == "oddcanon":
         run_oddcanon_item(item, r)
     elif item["family"] == "control":
